@@ -665,19 +665,26 @@ func (h *H) genPlan() plan {
 			p.insts = append(p.insts, instance{decl: 1, tags: []string{"BB"}})
 		}
 		p.sel = []colSel{{}, {LineIndex: intp(1)}, {LineIndex: intp(2)}, {LinePat: &pat{Prefix: true, Lit: "BB"}}}
-	default: // two-row target records, then an optional one-row trailer: EOF inside a record
+	default: // R-row records, then up to R-1 one-row trailer records: EOF inside a record leaves
+		// lines in the buffer that are then popped one at a time (index shifting of the rest)
+		rows := r.Between(2, 3)
+		tailTarget := r.Chance(0.5)
 		p.decls = []tdecl{
-			{Name: "pair", Rows: intp(2), Target: true},
-			{Name: "tail", Min: intp(0)},
+			{Name: "pair", Rows: intp(rows), Target: !tailTarget},
+			{Name: "tail", Min: intp(0), Target: tailTarget},
+		}
+		var tags []string
+		for k := 1; k <= rows; k++ {
+			tags = append(tags, fmt.Sprintf("P%d", k))
 		}
 		for i := 0; i < ninst; i++ {
-			p.insts = append(p.insts, instance{decl: 0, tags: []string{"P1", "P2"}})
+			p.insts = append(p.insts, instance{decl: 0, tags: tags})
 		}
-		if r.Chance(0.6) {
+		for i, m := 0, r.Between(0, rows-1); i < m; i++ {
 			p.insts = append(p.insts, instance{decl: 1, tags: []string{"TL"}})
 		}
 		p.sel = []colSel{{}, {LineIndex: intp(1)}, {LineIndex: intp(2)}, {LineIndex: intp(3)},
-			{LinePat: &pat{Prefix: true, Lit: "P2"}}, {LinePat: &pat{Prefix: true, Lit: "P1"}}}
+			{LinePat: &pat{Prefix: true, Lit: "P2"}}, {LinePat: &pat{Prefix: true, Lit: "P1"}}, {LinePat: &pat{Prefix: true, Lit: "TL"}}}
 	}
 	// the target is the first declaration unless one says is_target (validation's rule)
 	seen := false
@@ -1258,7 +1265,7 @@ func main() {
 			h.replayFile(f, false)
 		}
 	}
-	total := o.Count(1500, 60000)
+	total := o.Count(1300, 60000)
 	for c := 0; c < total; c++ {
 		switch k := h.r.Pick(10); {
 		case k < 2:
